@@ -74,7 +74,8 @@ def main() -> int:
                 r = subprocess.run([str(ROOT / "check"), prop, "--tier", "quick"], capture_output=True, text=True,
                                    env={**os.environ, "VERIF_REPO": str(scratch)})
                 keys = sorted({l.split("key=")[1].split(":")[0] for l in r.stdout.splitlines() if "key=" in l})
-                row["props"][prop] = {"exit": r.returncode, "keys": keys[:4], "s": round(time.time() - t0, 1)}
+                rc = r.returncode if not (r.returncode == 1 and "VIOLATION property=" not in r.stdout) else 2   # exit 1 without a VIOLATION line = crash
+                row["props"][prop] = {"exit": rc, "keys": keys[:4], "s": round(time.time() - t0, 1)}
             results.append(row)
             caught = all(v["exit"] == 1 for v in row["props"].values())
             print(("CAUGHT " if caught else "MISSED ") + json.dumps(row), flush=True)
